@@ -16,6 +16,7 @@ import os
 from fractions import Fraction
 
 from .. import translate
+from . import normalize
 from ..translate import Untranslatable
 
 TCU = "fairlearn/postprocessing/_tradeoff_curve_utilities.py"
@@ -228,8 +229,8 @@ def _cm(fields, indent="  "):
 
 @translate.lifter
 def lift_threshold(repo):
-    t1 = ast.parse(translate._read(repo, TCU))
-    t2 = ast.parse(translate._read(repo, TOP))
+    t1 = normalize.parse(translate._read(repo, TCU))
+    t2 = normalize.parse(translate._read(repo, TOP))
     metrics = _metric_dict(t1)
     derived = _extend(t1)
     sweep, ops = _sweep(t1)
